@@ -52,7 +52,7 @@ type lexReg struct {
 	ctor   string
 	kind   string // constant token kind, if any
 	pat    string // regex pattern
-	inLoop *ast.RangeStmt
+	inLoop *absLoop
 }
 
 func ruleLex(c *Ctx) {
@@ -75,13 +75,7 @@ func ruleLex(c *Ctx) {
 	}
 	// collect registrations in source order
 	var regs []lexReg
-	var loops []*ast.RangeStmt
-	inspectNoLit(nl.Body, func(x ast.Node) bool {
-		if r, ok := x.(*ast.RangeStmt); ok {
-			loops = append(loops, r)
-		}
-		return true
-	})
+	loops := c.absLoops(nl.Body, c.localDefs(nl.Body))
 	for _, call := range c.calls(nl.Body) {
 		nm := c.calleeName(call)
 		var r lexReg
@@ -104,8 +98,8 @@ func ruleLex(c *Ctx) {
 		default:
 			continue
 		}
-		for _, l := range loops {
-			if l.Body.Pos() <= call.Pos() && call.End() <= l.Body.End() {
+		for i := range loops {
+			if l := &loops[i]; l.body.Pos() <= call.Pos() && call.End() <= l.body.End() {
 				r.inLoop = l
 			}
 		}
@@ -154,21 +148,67 @@ func ruleLex(c *Ctx) {
 		}
 		c.R.Check(okID, "parser/oper.IsIdentOp", "LEX-1 IsIdentOp is idReg.MatchString", io.Pos(), "the routing predicate is the identifier pattern evaluated by this rule", "IsIdentOp no longer tests idReg (LEX-1 evaluates idReg)")
 	}
-	// keyword(): word boundary
+	// keyword(): word boundary. Every path of the match function that returns a rune count assumes HasPrefix(input, word)
+	// and NOT <pattern>.MatchString(input[len(word):]) for a package-level pattern that accepts word characters at the start.
 	if kw := c.FuncDecl("parser/lexer", "keyword"); kw != nil {
-		s := sx(kw.Body)
-		okKw := strings.Contains(s, "Sel:HasPrefix") && strings.Contains(s, "Op:!") && strings.Contains(s, "keywordPostfix") && strings.Contains(s, "Op:&&")
-		post := c.regexpVar("parser/lexer", "keywordPostfix")
-		okPost := post != nil && post.MatchString("x") && post.MatchString("9") && post.MatchString("_") && post.MatchString("é") && !post.MatchString(" x") && !post.MatchString("+")
-		c.R.Check(okKw && okPost, "parser/lexer.keyword", "LEX-1 whole-word test", kw.Pos(), "HasPrefix(s, kw) && !keywordPostfix.MatchString(rest); the postfix pattern accepts letters, digits, _ and non-ASCII letters at the start only", "keyword() does not require a word boundary after the keyword")
+		okKw, why := false, "no match literal"
+		for _, lit := range funcLits(kw.Body) {
+			tc := c.fnTerms(lit)
+			tc.expand = true
+			for o, d := range c.localDefs(kw.Body) { // kw := string(k) in the enclosing function
+				if _, dup := tc.defs[o]; !dup {
+					tc.defs[o] = d
+				}
+			}
+			paths, ok := c.retPaths(lit.Body.List)
+			if !ok {
+				why = "match literal has loops / too many paths"
+				continue
+			}
+			okKw = true
+			nCount := 0
+			for _, p := range paths {
+				if p.end != "return" || len(p.ret.Results) != 1 {
+					okKw, why = false, "a path does not return"
+					continue
+				}
+				rt := tc.tr(p.ret.Results[0])
+				if !isRuneCountTerm(rt) {
+					continue
+				}
+				nCount++
+				hasPrefix, boundary := false, false
+				for _, ct := range tc.pathTerms(p) {
+					op, as := splitTerm(ct)
+					if op == "strings.HasPrefix" && len(as) == 2 && as[0] == "p0" {
+						hasPrefix = true
+					}
+					if op == "not" && len(as) == 1 {
+						iop, ias := splitTerm(as[0])
+						if iop == "m:regexp.Regexp.MatchString" && len(ias) == 2 && strings.Contains(ias[1], "p0") {
+							if post := c.regexpVarByQual(ias[0]); post != nil && post.MatchString("x") && post.MatchString("9") && post.MatchString("_") && post.MatchString("é") && !post.MatchString(" x") && !post.MatchString("+") {
+								boundary = true
+							}
+						}
+					}
+				}
+				if !hasPrefix || !boundary {
+					okKw, why = false, fmt.Sprintf("a path returns a match without assuming the prefix test and the word-boundary test (assumes %v)", tc.pathTerms(p))
+				}
+			}
+			if nCount == 0 {
+				okKw, why = false, "no path returns a rune count"
+			}
+		}
+		c.R.Check(okKw, "parser/lexer.keyword", "LEX-1 whole-word test", kw.Pos(), "every matching path assumes HasPrefix(s, kw) and not <word-character pattern>.MatchString(rest); the pattern accepts letters, digits, _ and non-ASCII letters at the start only", "keyword() does not require a word boundary after the keyword: "+why)
 	}
 
 	// LEX-2 / LEX-3
 	nSorted := 0
 	for _, l := range loops {
-		ce, ok := unparen(l.X).(*ast.CallExpr)
+		ce, ok := unparen(l.seq).(*ast.CallExpr)
 		sorted := ok && c.calleeName(ce) == "parser/oper.Sort"
-		adds := len(c.callsTo(l.Body, "parser/lexer.lexicon.addOper", "parser/lexer.primOper", "parser/lexer.str", "parser/lexer.keyword"))
+		adds := len(c.callsTo(l.body, "parser/lexer.lexicon.addOper", "parser/lexer.primOper", "parser/lexer.str", "parser/lexer.keyword"))
 		if adds == 0 {
 			continue
 		}
@@ -177,7 +217,7 @@ func ruleLex(c *Ctx) {
 			if t := c.typeOf(ce.Args[0]); t != nil && strings.Contains(typeStr(t), "oper.Operator") {
 				isOps = true
 			}
-		} else if t := c.typeOf(l.X); t != nil && strings.Contains(typeStr(t), "oper.Operator") {
+		} else if t := c.typeOf(l.seq); t != nil && strings.Contains(typeStr(t), "oper.Operator") {
 			isOps = true
 		}
 		if !isOps {
@@ -186,12 +226,12 @@ func ruleLex(c *Ctx) {
 		if sorted {
 			nSorted++
 		}
-		c.R.Check(sorted, fn, "LEX-2 operators of "+src(l.X)+" sorted longest-first before registration", l.Pos(), "ranges over oper.Sort(..)", "operator rules are registered in caller order: a shorter operator registered first shadows a longer one (first match wins)")
+		c.R.Check(sorted, fn, "LEX-2 operators of "+src(l.seq)+" sorted longest-first before registration", l.stmt.Pos(), "ranges over oper.Sort(..)", "operator rules are registered in caller order: a shorter operator registered first shadows a longer one (first match wins)")
 	}
 	c.R.Check(nSorted >= 2, fn, "LEX-2 both operator lists", nl.Pos(), "built-in and user operator loops both sorted", "expected two sorted operator loops")
 	// built-in loop uses primOper
 	for _, r := range regs {
-		if r.inLoop != nil && strings.Contains(src(r.inLoop.X), "builtInOpers") {
+		if r.inLoop != nil && strings.Contains(src(r.inLoop.seq), "builtInOpers") {
 			c.R.Check(r.ctor == "primOper", fn, "LEX-3 built-in . ? use primOper", r.call.Pos(), "primOper refuses when another operator character follows", "built-in operators are registered with "+r.ctor+": `.`/`?` would be split out of longer user operators")
 		}
 	}
@@ -319,20 +359,16 @@ func ruleLex(c *Ctx) {
 					okRet = false
 					continue
 				}
-				e := unparen(r.Results[0])
-				if o := c.objOf(e); o != nil && qual(o) == "parser/lexer.NotMatched" {
-					continue
-				}
-				if ce, ok := e.(*ast.CallExpr); ok && c.calleeName(ce) == "parser/lexer.runeCount" {
+				tcl := c.fnTerms(lit)
+				tcl.expand = true
+				rt := tcl.tr(r.Results[0])
+				if rt == "const:-1" || isRuneCountTerm(rt) {
 					continue
 				}
 				okRet = false
 			}
 			c.R.Check(okRet && n > 0, "parser/lexer."+fnm, "LEX-5 match returns runeCount(..) or NotMatched", lit.Pos(), "offsets are rune counts (the lexer indexes a []rune)", "a match function returns something other than a rune count: byte lengths mis-slice non-ASCII input")
 		}
-	}
-	if rc := c.FuncDecl("parser/lexer", "runeCount"); rc != nil {
-		c.R.Check(len(c.callsTo(rc.Body, "unicode/utf8.RuneCountInString")) == 1, "parser/lexer.runeCount", "LEX-5 counts runes", rc.Pos(), "utf8.RuneCountInString", "runeCount does not count runes")
 	}
 	// regex(): anchored
 	if rx := c.FuncDecl("parser/lexer", "regex"); rx != nil {
@@ -499,12 +535,14 @@ func ruleParse(c *Ctx) {
 		}
 		last := calls[len(calls)-1]
 		arg := unparen(last.Args[0])
+		// term of the argument with single-assignment locals inlined (a temporary `rbp := bp.Pred()` is the same thing)
+		tc := c.fnTerms(fd)
+		bpName := tc.names[bpObj]
+		got := tc.tr(arg)
 		if pred {
-			ce, ok := arg.(*ast.CallExpr)
-			okP := ok && c.calleeName(ce) == "parser/oper.BP.Pred" && c.objOf(ce.Fun.(*ast.SelectorExpr).X) == bpObj
-			c.R.Check(okP, "parser."+fn, "PARSE-2 right operand parsed with bp.Pred()", last.Pos(), "operators of the same power bind to the right, looser ones do not", "right-associative handler passes "+src(arg)+": with fractional powers an operator strictly looser than bp can still bind inside the right operand (or same-power operators cannot)")
+			c.R.Check(got == "m:parser/oper.BP.Pred("+bpName+")", "parser."+fn, "PARSE-2 right operand parsed with bp.Pred()", last.Pos(), "operators of the same power bind to the right, looser ones do not", "right-associative handler passes "+src(arg)+": with fractional powers an operator strictly looser than bp can still bind inside the right operand (or same-power operators cannot)")
 		} else {
-			c.R.Check(c.objOf(arg) == bpObj, "parser."+fn, "PARSE-2 right operand parsed with exactly bp", last.Pos(), "same-power operators do not bind into the right operand", "handler passes "+src(arg)+" instead of its own binding power")
+			c.R.Check(got == bpName, "parser."+fn, "PARSE-2 right operand parsed with exactly bp", last.Pos(), "same-power operators do not bind into the right operand", "handler passes "+src(arg)+" instead of its own binding power")
 		}
 	}
 	rightOperand("binaryL", false)
@@ -518,7 +556,7 @@ func ruleParse(c *Ctx) {
 		if len(rets) == 1 && len(rets[0].Results) == 1 {
 			na := c.callsTo(rets[0], "math.Nextafter32")
 			if len(na) == 1 && len(na[0].Args) == 2 {
-				a0 := sx(na[0].Args[0])
+				a0 := c.fnTerms(pd).tr(na[0].Args[0])
 				inf := c.callsTo(na[0].Args[1], "math.Inf")
 				neg := false
 				if len(inf) == 1 {
@@ -526,7 +564,7 @@ func ruleParse(c *Ctx) {
 						neg = true
 					}
 				}
-				okPred = a0 == "(CallExpr Fun:float32 Args:[bp])" && neg
+				okPred = a0 == "conv:float32(r)" && neg
 			}
 		}
 		c.R.Check(okPred, "parser/oper.BP.Pred", "PARSE-2 Pred is the next lower float32", pd.Pos(), "Nextafter32(float32(bp), -Inf): no representable power lies strictly between Pred(bp) and bp", "Pred is not the adjacent lower float32: for some powers Pred(bp) == bp (right associativity lost) or another power fits in between")
@@ -1311,4 +1349,18 @@ func sortStrings(s []string) {
 			s[j], s[j-1] = s[j-1], s[j]
 		}
 	}
+}
+
+// isRuneCountTerm: the term counts the runes of a string (directly or through a helper that was seen through).
+func isRuneCountTerm(t string) bool {
+	return strings.HasPrefix(t, "unicode/utf8.RuneCountInString(") || strings.HasPrefix(t, "builtin.len(conv:[]rune(") || strings.HasPrefix(t, "builtin.len(conv:[]int32(")
+}
+
+// regexpVarByQual compiles the pattern of a package-level *regexp.Regexp variable given its qualified name ("parser/lexer.keywordPostfix").
+func (c *Ctx) regexpVarByQual(q string) *regexp.Regexp {
+	i := strings.LastIndex(q, ".")
+	if i < 0 {
+		return nil
+	}
+	return c.regexpVar(q[:i], q[i+1:])
 }
